@@ -59,3 +59,18 @@ Definition impl_agree (t : ty) (base : list Z) (cs : list corr) : Z :=
   if forallb (fun c => let p := apply_c c base in
                        same_outcome t (accept_mem t p) (ldec 4096 (fun _ => 238) t p) &&
                        same_outcome t (accept_mem t p) (vdec 4096 (fun _ => 238) t p)) cs then 1 else 0.
+
+(* keyword-argument entry points: the entry for a prefix of the parameters decodes the prefix tuple [tp] (with its own
+   minimum calldatasize) and fills the rest with the defaults [dflt]; the echo returns the full tuple [tf] *)
+Definition expect_kw (tp tf : ty) (dflt : list val) (sel base basef : list Z) (cs : list corr) : list string :=
+  map (fun c => match accept_call tp (sel ++ apply_c c base) with
+                | Some (VList vs) => let e := enc tf (VList (vs ++ dflt)) in
+                                     if list_eqb e basef then "="%string else ("A" ++ digest e)%string
+                | Some _ => "?"%string
+                | None => "R"%string
+                end) cs.
+
+(* default_return_value: empty returndata yields the default, anything else is decoded as usual *)
+Definition expect_retd (t : ty) (dv : val) (base : list Z) (cs : list corr) : list string :=
+  map (fun c => let p := apply_c c base in
+                outcome t base (if zlen p =? 0 then Some dv else accept_ret t p)) cs.
